@@ -63,3 +63,9 @@ CHECKS["C17"] = {
   "text": "v1: 2-7 tokens with 6 / 8 / 18 decimals, USDG amounts on both sides of and exactly at target, amounts over 12 orders of magnitude and sized by the distance from target; fee in [0, 85 bp] and within 1 bp of getFeeBasisPoints (flat / rebate / tax branches), minted and redeemed amounts = price x amount / value per share with the contract's round-downs (2 units of the last place), wallet and holding deltas, buy-then-sell returns <= paid, reward = rate x 60 x held / supply, over-redemption rejected. v2: balanced / imbalanced pools, virtual inventories, impact pool 0..1e6; minted GM, fees, impact (same-side, crossover, virtual, capped by the impact pool), negative-mint deposits rejected, pro-rata withdrawals, over-withdrawal rejected, deposit-then-withdraw value <= paid except within the applied positive impact (known finding). Sampled exploration.",
   "note": "v2 is float arithmetic: 1e-9 relative. The v2 reference re-derives the same published formulas; it shares no code with the implementation.",
 }
+
+CHECKS["C08"] = {
+  "technique": "Hypothesis generated tick paths, ranges, volumes and same-bar operation interleavings run through the real Actuator loop; growth of pending fees across update() compared with the exact rational fee formula",
+  "text": "Loader-shaped frames (int64 ticks, Decimal volumes / liquidity), paths anchored on the range bounds (exactly on, one tick inside / outside, jumps across, stationary), bar interval 1 and 5 min, both orientations, decimals {6,8,18}^2, three fee tiers, 1-3 positions added in before_bar / on_bar and removed later, unrelated swaps / far-away positions / collects in the same bar; per bar and position: fee_k = volume_k x rate x fraction of [previous close, close] inside [lower, upper) x own / (pool + all own), at 1e-25 relative plus one unit of the last place of the pending amount; never negative; zero when the path never enters the range; never above the single-position share. Sampled exploration.",
+  "note": "Bar 0 uses its own close as path start. Pool liquidity >= 1 (a pool row with zero liquidity and a zero-liquidity own position divides 0/0 in the code: outside the generated domain, stated here).",
+}
